@@ -134,14 +134,15 @@ def InnerFM (T : Text) (evs : List Ev) : Prop :=
   ∀ t m a, Ev.chunk t m ∈ evs → m.orig = some a → t.getD [] ≠ [] ∧ ∀ contents : List (Option Text), contents[0]? = some (some T) → FM contents a (t.getD [])
 
 /-- the advance rule along a whole inner stream (after the source announcement) -/
-theorem rEvs_orig (T : Text) : ∀ (evs : List Ev) (st : RSt), st.contents[0]? = some (some T) → NoSrc evs → InnerFM T evs →
+theorem rEvs_orig (RS : List Repl) (T : Text) : ∀ (evs : List Ev) (st : RSt), st.contents[0]? = some (some T) → NoSrc evs → InnerFM T evs →
+    (∀ r ∈ st.rest, r ∈ RS) →
     ∀ t' mm, Ev.chunk t' mm ∈ (rEvs st evs).2 →
-      mm.orig = none ∨ ∃ t m a, Ev.chunk t m ∈ evs ∧ m.orig = some a ∧ AtOffset a (t.getD []) mm := by
+      mm.orig = none ∨ ∃ t m a, Ev.chunk t m ∈ evs ∧ m.orig = some a ∧ AtOffset RS a (t.getD []) t' mm := by
   intro evs
   induction evs with
-  | nil => intro st _ _ _ t' mm h; simp [rEvs] at h
+  | nil => intro st _ _ _ _ t' mm h; simp [rEvs] at h
   | cons e es ih =>
-    intro st hc hns hfm t' mm h
+    intro st hc hns hfm hrest t' mm h
     have hns' : NoSrc es := fun i s c hm => hns i s c (List.mem_cons_of_mem _ hm)
     have hfm' : InnerFM T es := fun t m a hm => hfm t m a (List.mem_cons_of_mem _ hm)
     simp only [rEvs, List.mem_append] at h
@@ -155,7 +156,7 @@ theorem rEvs_orig (T : Text) : ∀ (evs : List Ev) (st : RSt), st.contents[0]? =
           exact Or.inl (this hmo)
         | some a =>
           obtain ⟨hne, hf⟩ := hfm t m a (by simp) hmo
-          exact Or.inr ⟨t, m, a, by simp, hmo, rOnChunk_adv st (t.getD []) hne m a hmo (hf _ hc) t' mm h⟩
+          exact Or.inr ⟨t, m, a, by simp, hmo, (rOnChunk_adv RS st (t.getD []) hne m a hmo (hf _ hc) hrest).1 t' mm h⟩
       | source i s c => exact absurd (List.mem_cons_self) (hns i s c)
       | name i n =>
         simp only [rEv] at h
@@ -165,7 +166,12 @@ theorem rEvs_orig (T : Text) : ∀ (evs : List Ev) (st : RSt), st.contents[0]? =
         | chunk t m => simp only [rEv]; rw [(rOnChunk_keeps st (t.getD []) m).2.1]; exact hc
         | source i s c => exact absurd (List.mem_cons_self) (hns i s c)
         | name i n => exact hc
-      rcases ih _ hc' hns' hfm' t' mm h with h | ⟨t, m, a, hm, h1, h2⟩
+      have hrest' : ∀ r ∈ (rEv st e).1.rest, r ∈ RS := by
+        cases e with
+        | chunk t m => simp only [rEv]; exact fun r hr => hrest r (rOnChunk_restSub st (t.getD []) m r hr)
+        | source i s c => exact absurd (List.mem_cons_self) (hns i s c)
+        | name i n => exact hrest
+      rcases ih _ hc' hns' hfm' hrest' t' mm h with h | ⟨t, m, a, hm, h1, h2⟩
       · exact Or.inl h
       · exact Or.inr ⟨t, m, a, List.mem_cons_of_mem _ hm, h1, h2⟩
 
@@ -184,7 +190,8 @@ and `p` the offset inside that token at which the delivered piece was cut (or th
 theorem replace_original_true (T name : Text) (ha : IsAscii T) (hl : T.length < USIZE_MAX) (sorted : List Repl) :
     ∀ t' mm, Ev.chunk t' mm ∈ (replaceStream sorted (streamOriginal T name ⟨true, false⟩)).evs →
       mm.orig = none ∨ ∃ tok k p y, k + p < T.length ∧ p < tok.length ∧ tok <+: T.drop k ∧ TokOK tok ∧ mm.orig = some y ∧ y.src = 0
-        ∧ adv startPos (T.take (k + p)) = ⟨y.line, y.col⟩ := by
+        ∧ adv startPos (T.take (k + p)) = ⟨y.line, y.col⟩
+        ∧ ((∃ q, p < q ∧ q ≤ tok.length ∧ t' = some (bsub tok p q)) ∨ (∃ r ∈ sorted, ∃ cl ∈ splitLines r.content, t' = some cl)) := by
   intro t' mm h
   have hall := original_tokAt T name
   simp only [replaceStream] at h
@@ -200,18 +207,18 @@ theorem replace_original_true (T name : Text) (ha : IsAscii T) (hl : T.length < 
       · rw [h0] at hmo; cases hmo
       · rw [h1] at hmo; cases hmo
         exact ⟨h2.ne, fun contents hc => fm_of_tokAt T ha hl tok _ k h2 contents hc⟩
-    rcases rEvs_orig T _ _ (by rfl) hns hfm t' mm h with h | ⟨t, m, a, hm, h1, p, hp, y, hy1, hy2, hy3, hy4⟩
+    rcases rEvs_orig sorted T _ _ (by rfl) hns hfm (fun r hr => hr) t' mm h with h | ⟨t, m, a, hm, h1, p, hp, ⟨y, hy1, hy2, hy3, hy4⟩, hpiece⟩
     · exact Or.inl h
     · rcases hall t m (by simp only [streamOriginal, if_true]; exact List.mem_cons_of_mem _ hm) with h0 | ⟨tok, a', k, rfl, h1', h2⟩
       · rw [h0] at h1; cases h1
       · rw [h1'] at h1; cases h1
-        simp only [Option.getD_some] at hp
+        simp only [Option.getD_some] at hp hpiece
         obtain ⟨r, hr⟩ := h2.pre
         have hlen : k + tok.length ≤ T.length := by
           have := congrArg List.length hr
           simp only [List.length_append, List.length_drop] at this
           omega
-        refine Or.inr ⟨tok, k, p, y, by omega, hp, h2.pre, h2.ok, hy1, by rw [hy2, h2.src], ?_⟩
+        refine Or.inr ⟨tok, k, p, y, by omega, hp, h2.pre, h2.ok, hy1, by rw [hy2, h2.src], ?_, hpiece⟩
         rw [List.take_add, adv_append, h2.pos, ← hr, List.take_append_of_le_length (Nat.le_of_lt hp),
           adv_noNL _ _ (tok_take_noNL tok h2.ok p hp)]
         simp only [List.length_take, Nat.min_eq_left (Nat.le_of_lt hp)]
@@ -255,7 +262,7 @@ theorem replace_original_map (T name : Text) (ha : IsAscii T) (hl : T.length < U
   obtain ⟨t, ht⟩ := chunkMs_mem_ev _ m hm1
   have hst : ((Src.replace (.orig T name) rs).stream ⟨true, false⟩ []).1 = replaceStream (sortRepls rs) (streamOriginal T name ⟨true, false⟩) := rfl
   rw [hst] at ht
-  rcases replace_original_true T name ha hl (sortRepls rs) t m ht with h | ⟨tok, k, p, y, h1, _, _, _, h5, h6, h7⟩
+  rcases replace_original_true T name ha hl (sortRepls rs) t m ht with h | ⟨tok, k, p, y, h1, _, _, _, h5, h6, h7, _⟩
   · rw [h] at hm2; cases hm2
   · rw [h5] at hm2; cases hm2
     exact ⟨h6, k + p, h1, h7⟩
